@@ -9,6 +9,7 @@
 // state; the harness itself shares nothing between the jobs but the start signal.
 // Output: "threads=.. rounds=.. jobs=.. mismatches=.. first=<description>"
 #include <atomic>
+#include <unistd.h>
 #include <cstdio>
 #include <cstdlib>
 #include <sstream>
@@ -41,7 +42,8 @@ std::string job( int t, int r)
    std::ostringstream  out, err, res;
    try
    {
-      pa::Handler  ah( out, err, 0);
+      // every third job with verbose evaluation (the handler reports each argument it handles on its own stream)
+      pa::Handler  ah( out, err, (t + r) % 3 == 1 ? pa::Handler::hfVerboseArgs : 0);
       std::vector< int>          ints;
       std::vector< std::string>  strs;
       std::vector< std::string>  upper;
@@ -116,6 +118,7 @@ int main( int argc, char** argv)
       std::fprintf( stderr, "usage: %s <threads> <rounds>\n", argv[ 0]);
       return 2;
    }
+   ::alarm( 240);     // a run that hangs (a lock that is never released) ends with SIGALRM
    const int  n = std::atoi( argv[ 1]);
    const int  rounds = std::atoi( argv[ 2]);
    long  mismatches = 0, jobs = 0, accepted = 0;
